@@ -17,7 +17,8 @@
 //     give the record, and that no fragment is longer than length+step.
 //   - IMergeSequenceBatch is exercised by C06 (its contract is about counts).
 //   - "always terminates" is observed as: the drain of a pipeline did not
-//     complete within 10 s, three times in a row on the same case.
+//     complete within 10 s + 20 ms per batch push of the case, three times in a
+//     row on the same case.
 package c03
 
 import (
@@ -605,7 +606,7 @@ func runOnce(c Case) error {
 	go func() { wg.Wait(); close(done) }()
 	select {
 	case <-done:
-	case <-time.After(10 * time.Second):
+	case <-time.After(hangLimit(c)):
 		if fatal.Count() != fatalsBefore {
 			return fmt.Errorf("a library goroutine called log.Fatal during the run: %s", fatal.LastMessage())
 		}
@@ -671,6 +672,25 @@ func runOnce(c Case) error {
 		}
 	}
 	return nil
+}
+
+// hangLimit is the time without completion after which a drain counts as not
+// terminating: 10 s (about 10^4 times the normal duration of a small case) plus
+// an allowance proportional to the number of batch pushes of the case.
+func hangLimit(c Case) time.Duration {
+	n := len(c.Main.Sizes)
+	for _, f := range c.Files {
+		n += len(f.Sizes)
+	}
+	recs := c.Main.total()
+	for _, st := range c.Stages {
+		for _, e := range st.Extra {
+			n += len(e.Sizes)
+			recs += e.total()
+		}
+	}
+	pushes := (n + recs*4) * (2 + len(c.Stages))
+	return 10*time.Second + time.Duration(pushes)*20*time.Millisecond
 }
 
 // checkPipeline runs the case; a non-terminating drain is a violation only when
